@@ -424,6 +424,10 @@ def render_schema(ast, root="schema"):
              ("handler", ast.get("handler")), ("prefix", ast.get("prefix")),
              ("extends", ast.get("extends_urls"))]
     lines = ["<%s%s>" % (root, _attrs(pairs))]
+    if ast.get("imports_after_abstract"):
+        # the imported components implement abstract types of this document: declare those first
+        for a in ast.get("abstract", []):
+            lines.append("  <abstracttype name=%s/>" % quoteattr(a))
     for p in ast.get("imports", []):
         if isinstance(p, (list, tuple)):
             lines.append("  <import package=%s file=%s/>" % (quoteattr(p[0]), quoteattr(p[1])))
@@ -431,7 +435,7 @@ def render_schema(ast, root="schema"):
             lines.append("  <import package=%s/>" % quoteattr(p))
     for src in ast.get("import_srcs", []):
         lines.append("  <import src=%s/>" % quoteattr(src))
-    for a in ast.get("abstract", []):
+    for a in ([] if ast.get("imports_after_abstract") else ast.get("abstract", [])):
         lines.append("  <abstracttype name=%s/>" % quoteattr(a))
     for t in ast.get("types", []):
         lines.append(render_type(t))
